@@ -78,6 +78,9 @@ def argmaxLast (tle : F → F → Bool) : List F → Option Nat
   | [] => none
   | x :: xs => some (argmaxGo tle 1 0 x xs)
 
+/-- The comparison `max_by` uses when the carrier is linearly ordered (no NaN, no signed zero). -/
+def dle [LE F] [DecidableLE F] : F → F → Bool := fun a b => decide (a ≤ b)
+
 /-- `(1..dimension).collect()` -/
 def remaining0 (n : Nat) : List Nat := List.range' 1 (n - 1)
 
@@ -263,6 +266,9 @@ def depositEdges (δ : F) (i j : Nat) : List (Nat × Nat) → F → F
     let x1 := if a = i ∧ b = j then x + δ else x
     let x2 := if b = i ∧ a = j then x1 + δ else x1
     depositEdges δ i j es x2
+
+/-- Number of deposits a route makes on entry `(i, j)`: its consecutive-city edges `(i, j)` and `(j, i)`. -/
+def hits (route : List Nat) (i j : Nat) : Nat := (edges route).count (i, j) + (edges route).count (j, i)
 
 /-- Ant-system entry: evaporate, then every individual but the first deposits `c / objective`. -/
 def asSpecGo (c : F) (i j : Nat) : List (Ind F) → F → F
